@@ -483,3 +483,534 @@ Proof.
     + destruct Hp as [_ [Hlt Hr]]. subst lt. cbn [fold_left]. split; [constructor; assumption|].
       unfold pinv. cbn [h_gr h_rtimer h_ltimers h_rib h_sess]. split; [reflexivity|]. split; [reflexivity|]. exact Hr.
 Qed.
+
+Lemma outs_restart_est : forall d,
+    let outs := GStopTimer :: match d with [] => [] | _ :: _ => [GDeleteStaleRoutes d] end in
+    delete_fams outs = d /\ delete_llgr_fams outs = [] /\ has_stop_llgr outs = false.
+Proof. intros [|x r]; cbn; repeat split; rewrite ?app_nil_r; reflexivity. Qed.
+
+Lemma outs_llgr_est : forall d,
+    let outs := GStopLlgrTimers :: match d with [] => [] | _ :: _ => [GDeleteLlgrStaleRoutes d] end in
+    delete_fams outs = [] /\ delete_llgr_fams outs = d /\ has_stop_llgr outs = true.
+Proof. intros [|x r]; cbn; repeat split; rewrite ?app_nil_r; reflexivity. Qed.
+
+Lemma gr_step_restart_est : forall stale llgr l,
+    gr_step (GPeerRestarting stale llgr) (GSessionEstablished l) =
+    (match dedup l with [] => GIdle | _ :: _ => GPeerReconnected (dedup l) false end,
+     GStopTimer :: match filter (fun f => negb (mem f (dedup l))) stale with
+                   | [] => []
+                   | _ :: _ => [GDeleteStaleRoutes (filter (fun f => negb (mem f (dedup l))) stale)]
+                   end).
+Proof. intros stale [lp|] l; reflexivity. Qed.
+
+Lemma gr_step_llgr_est : forall rem l,
+    gr_step (GLlgrStaling rem) (GSessionEstablished l) =
+    (match dedup l with [] => GIdle | _ :: _ => GPeerReconnected (dedup l) true end,
+     GStopLlgrTimers :: match filter (fun f => negb (mem f (dedup l))) rem with
+                        | [] => []
+                        | _ :: _ => [GDeleteLlgrStaleRoutes (filter (fun f => negb (mem f (dedup l))) rem)]
+                        end).
+Proof. intros rem l; reflexivity. Qed.
+
+(* [fam] and [N] are convertible but not syntactically equal inside [match] nodes, which
+   defeats [rewrite]; the three projections of an output list are replaced by conversion *)
+Ltac rw_outs E1 E2 E3 :=
+  repeat match goal with
+  | |- context [delete_fams ?o] =>
+      lazymatch o with _ :: _ => idtac end;
+      let t := type of E1 in
+      match t with _ = ?d => replace (delete_fams o) with d by (symmetry; exact E1) end
+  end;
+  repeat match goal with
+  | |- context [delete_llgr_fams ?o] =>
+      lazymatch o with _ :: _ => idtac end;
+      let t := type of E2 in
+      match t with _ = ?d => replace (delete_llgr_fams o) with d by (symmetry; exact E2) end
+  end;
+  repeat match goal with
+  | |- context [has_stop_llgr ?o] =>
+      lazymatch o with _ :: _ => idtac end;
+      let t := type of E3 in
+      match t with _ = ?d => replace (has_stop_llgr o) with d by (symmetry; exact E3) end
+  end.
+
+Lemma inv_up : forall h fams gr ll,
+    inv h -> wf_event (HUp fams gr ll) = true -> inv (h_step h (HUp fams gr ll)).
+Proof.
+  intros h fams gr ll Hinv Hwf. cbn [h_step]. destruct (h_sess h) as [s0|] eqn:Es; [exact Hinv|].
+  cbn [wf_event] in Hwf. apply andb_true_iff in Hwf. destruct Hwf as [Hwg Hwl].
+  open_inv h Hinv. subst S.
+  change (match gr with Some (l, _, _) => l | None => [] end) with (fams_of_gr gr).
+  (* the part of the invariant that does not depend on the phase *)
+  assert (forall g' lt' rib',
+             (forall r, In r rib' -> In r rib) -> lt' = [] ->
+             ginv {| h_gr := g'; h_rtimer := false; h_ltimers := lt'; h_rib := rib';
+                     h_sess := Some {| s_gen := gen + 1; s_fams := fams; s_gr := gr; s_llgr := ll |};
+                     h_gen := gen + 1; h_admin_down := ad |}) as Hginv.
+  { intros g' lt' rib' Hsub Hlt'. constructor; cbn [h_rib h_gen h_sess h_rtimer h_ltimers].
+    - intros r Hin. specialize (Hgen r (Hsub r Hin)). lia.
+    - intros s Hs. inversion Hs; subst s. cbn [s_gen s_fams s_gr s_llgr].
+      repeat split; try assumption; specialize (Hgen r (Hsub r H)); lia. }
+  (* every old route is retained once the new session exists *)
+  assert (forall g' rt' lt' rib' r, In r rib ->
+             retained {| h_gr := g'; h_rtimer := rt'; h_ltimers := lt'; h_rib := rib';
+                         h_sess := Some {| s_gen := gen + 1; s_fams := fams; s_gr := gr; s_llgr := ll |};
+                         h_gen := gen + 1; h_admin_down := ad |} r = true) as Hold.
+  { intros g' rt' lt' rib' r Hin. unfold retained. cbn. specialize (Hgen r Hin).
+    assert (r_sess r =? gen + 1 = false) as -> by lia. reflexivity. }
+  destruct g as [|stale llgr|rem|p fl].
+  - (* Idle: no route is left from before *)
+    assert (rib = []) as -> by (apply (idle_no_session_empty
+        {| h_gr := GIdle; h_rtimer := rt; h_ltimers := lt; h_rib := rib; h_sess := None; h_gen := gen; h_admin_down := ad |});
+        [exact Hp | reflexivity | reflexivity]).
+    destruct Hp as [_ [Hlt _]]. subst lt. cbn.
+    split; [apply Hginv; [intros r H; exact H | reflexivity]|].
+    unfold pinv. cbn. repeat split. intros r [].
+  - destruct Hp as [_ [_ [Hlt Hr]]]. subst lt. rewrite gr_step_restart_est.
+    set (gr_set := dedup (fams_of_gr gr)).
+    set (dropped := filter (fun f => negb (mem f gr_set)) stale).
+    pose proof (outs_restart_est dropped) as E. cbv zeta in E. destruct E as [E1 [E2 E3]]. cbv beta iota zeta. rw_outs E1 E2 E3.
+    rewrite drop_llgr_stale_nil.
+    assert (forall r, In r (rib_drop_stale rib dropped) ->
+                      In r rib /\ mem (r_fam r) gr_set = true /\ r_stale r = true) as Hkeep.
+    { intros r Hin. apply in_drop_stale in Hin. destruct Hin as [Hin Hn]. destruct (Hr r Hin) as [Hst Hs].
+      split; [exact Hin|]. split; [|exact Hs]. rewrite Hs, andb_true_r in Hn. subst dropped.
+      rewrite mem_filter, Hst in Hn. cbn [andb] in Hn. apply negb_false_iff in Hn. exact Hn. }
+    split; [apply Hginv; [intros r H; apply (Hkeep r H) | reflexivity]|].
+    unfold pinv. cbn [h_gr h_rtimer h_ltimers h_rib h_sess].
+    destruct gr_set as [|x xs] eqn:Egs.
+    + split; [reflexivity|]. split; [reflexivity|]. intros r Hin.
+      destruct (Hkeep r Hin) as [_ [Hm _]]. discriminate.
+    + split; [reflexivity|]. split; [reflexivity|]. intros r Hin _.
+      destruct (Hkeep r Hin) as [_ [Hm Hs]]. split; [exact Hm|]. split; [|exact Hs].
+      eexists. split; [reflexivity|]. cbn [s_gr]. rewrite <- Egs in Hm. subst gr_set. rewrite mem_dedup in Hm. exact Hm.
+  - destruct Hp as [_ [_ [Hlt Hr]]]. rewrite gr_step_llgr_est.
+    set (gr_set := dedup (fams_of_gr gr)).
+    set (dropped := filter (fun f => negb (mem f gr_set)) rem).
+    pose proof (outs_llgr_est dropped) as E. cbv zeta in E. destruct E as [E1 [E2 E3]]. cbv beta iota zeta. rw_outs E1 E2 E3.
+    rewrite drop_stale_nil.
+    assert (forall r, In r (rib_drop_llgr_stale rib dropped) ->
+                      In r rib /\ mem (r_fam r) gr_set = true /\ r_llgr r = true) as Hkeep.
+    { intros r Hin. apply in_drop_llgr_stale in Hin. destruct Hin as [Hin Hn]. destruct (Hr r Hin) as [Hst Hs].
+      split; [exact Hin|]. split; [|exact Hs]. rewrite Hs, andb_true_r in Hn. subst dropped.
+      rewrite mem_filter, Hst in Hn. cbn [andb] in Hn. apply negb_false_iff in Hn. exact Hn. }
+    split; [apply Hginv; [intros r H; apply (Hkeep r H) | reflexivity]|].
+    unfold pinv. cbn [h_gr h_rtimer h_ltimers h_rib h_sess].
+    destruct gr_set as [|x xs] eqn:Egs.
+    + split; [reflexivity|]. split; [reflexivity|]. intros r Hin.
+      destruct (Hkeep r Hin) as [_ [Hm _]]. discriminate.
+    + split; [reflexivity|]. split; [reflexivity|]. intros r Hin _.
+      destruct (Hkeep r Hin) as [_ [Hm Hs]]. split; [exact Hm|]. split; [|exact Hs].
+      eexists. split; [reflexivity|]. cbn [s_gr]. rewrite <- Egs in Hm. subst gr_set. rewrite mem_dedup in Hm. exact Hm.
+  - (* PeerReconnected left over from a non-eligible drop: nothing is retained *)
+    assert (rib = []) as -> by (apply (reconnected_no_session_empty
+        {| h_gr := GPeerReconnected p fl; h_rtimer := rt; h_ltimers := lt; h_rib := rib; h_sess := None;
+           h_gen := gen; h_admin_down := ad |} p fl); [exact Hp | reflexivity | reflexivity]).
+    destruct Hp as [_ [Hlt _]]. subst lt.
+    assert (gr_step (GPeerReconnected p fl) (GSessionEstablished (fams_of_gr gr)) = (GPeerReconnected p fl, [])) as ->
+        by (destruct fl; reflexivity).
+    cbn.
+    split; [apply Hginv; [intros r H; exact H | reflexivity]|].
+    unfold pinv. cbn [h_gr h_rtimer h_ltimers h_rib h_sess]. split; [reflexivity|]. split; [reflexivity|]. intros r [].
+Qed.
+
+Lemma gr_step_drop_gr : forall g l rtm ll,
+    (g = GIdle \/ exists p fl, g = GPeerReconnected p fl) ->
+    gr_step g (GSessionDropped (Some (l, rtm)) ll) =
+    (GPeerRestarting (fold_left (fun acc f => if mem f acc then acc else acc ++ [f])
+                                (match ll with Some lp => map fst lp | None => [] end) l) ll,
+     [GStartTimer rtm]).
+Proof. intros g l rtm ll [->|[p [fl ->]]]; [|destruct fl]; reflexivity. Qed.
+
+Lemma gr_step_drop_llgr : forall g lp,
+    (g = GIdle \/ exists p fl, g = GPeerReconnected p fl) ->
+    gr_step g (GSessionDropped None (Some lp)) = (GLlgrStaling (dedup (map fst lp)), [GStartLlgrTimers lp]).
+Proof. intros g lp [->|[p [fl ->]]]; [|destruct fl]; reflexivity. Qed.
+
+Lemma subset_b_mem : forall a b f, subset_b a b = true -> mem f a = true -> mem f b = true.
+Proof.
+  intros a b f Hs Hm. unfold subset_b in Hs. rewrite forallb_forall in Hs. apply Hs. apply mem_In. exact Hm.
+Qed.
+
+(* the disconnect handling, for whatever the eligibility decision was *)
+Lemma down_core : forall g rt lt rib s gen ad (gr2 : option (list fam * N)) (llgr2 : option (list (fam * N))),
+    inv {| h_gr := g; h_rtimer := rt; h_ltimers := lt; h_rib := rib; h_sess := Some s; h_gen := gen; h_admin_down := ad |} ->
+    let gr_fams := match gr2 with Some (l, _) => l | None => [] end in
+    let llgr_fams := match llgr2 with Some l => map fst l | None => [] end in
+    let drop_fams := filter (fun f => negb (mem f gr_fams) && negb (mem f llgr_fams)) (s_fams s) in
+    inv (apply_disconnect
+           {| h_gr := g; h_rtimer := rt; h_ltimers := lt;
+              h_rib := rib_restale (rib_drop rib drop_fams) (gr_fams ++ llgr_fams);
+              h_sess := None; h_gen := gen; h_admin_down := ad |} gr2 llgr2).
+Proof.
+  intros g rt lt rib s gen ad gr2 llgr2 Hinv gr_fams llgr_fams drop_fams.
+  destruct Hinv as [[Hgen Hsess] Hp]. unfold pinv in Hp.
+  cbn [h_gr h_rtimer h_ltimers h_rib h_sess h_gen h_admin_down] in *.
+  destruct (Hsess s eq_refl) as [Hg [Hrt [Hlt [Hsg [Hsl Hcur]]]]]. subst rt lt.
+  (* the session is up: the phase is Idle or PeerReconnected *)
+  assert (g = GIdle \/ exists p fl, g = GPeerReconnected p fl) as Hphase.
+  { destruct g as [|stale llgr|rem|p fl]; [left; reflexivity | | | right; exists p, fl; reflexivity];
+      destruct Hp as [Hn _]; discriminate. }
+  (* every route of the peer is in a family of the session *)
+  assert (forall q, In q rib -> mem (r_fam q) (s_fams s) = true) as Hfam.
+  { intros q Hin.
+    destruct (retained {| h_gr := g; h_rtimer := false; h_ltimers := []; h_rib := rib; h_sess := Some s;
+                          h_gen := gen; h_admin_down := ad |} q) eqn:Er.
+    - destruct Hphase as [->|[p [fl ->]]].
+      + destruct Hp as [_ [_ Hr]]. rewrite (Hr q Hin) in Er. discriminate.
+      + destruct Hp as [_ [_ Hr]]. destruct (Hr q Hin Er) as [_ [[s0 [Hs0 Hm]] _]]. inversion Hs0; subst s0.
+        apply (subset_b_mem _ _ _ Hsg Hm).
+    - unfold retained in Er. cbn in Er. apply orb_false_iff in Er. destruct Er as [Er _].
+      apply orb_false_iff in Er. destruct Er as [Er _]. apply negb_false_iff in Er. apply N.eqb_eq in Er.
+      apply (Hcur q Hin Er). }
+  (* what is left after the drop is in a kept family and marked stale *)
+  set (rib1 := rib_restale (rib_drop rib drop_fams) (gr_fams ++ llgr_fams)).
+  assert (forall r, In r rib1 ->
+             r_sess r <= gen /\ (mem (r_fam r) gr_fams || mem (r_fam r) llgr_fams) = true /\ r_stale r = true) as Hrib1.
+  { intros r Hin. subst rib1. apply in_restale in Hin. destruct Hin as [q [Hq [Hf [Hs [_ [_ Hst]]]]]].
+    apply in_drop in Hq. destruct Hq as [Hq Hnd].
+    subst drop_fams. rewrite mem_filter, (Hfam q Hq) in Hnd. cbn [andb] in Hnd.
+    assert (mem (r_fam q) gr_fams || mem (r_fam q) llgr_fams = true) as Hk
+        by (destruct (mem (r_fam q) gr_fams), (mem (r_fam q) llgr_fams); cbn in *; congruence).
+    split; [rewrite Hs; apply Hgen; exact Hq|]. split; [rewrite Hf; exact Hk|].
+    apply Hst. rewrite mem_app. exact Hk. }
+  unfold apply_disconnect. cbn [h_gr h_rib h_ltimers h_rtimer].
+  destruct gr2 as [[l rtm]|].
+  - rewrite (gr_step_drop_gr g l rtm llgr2 Hphase). cbn [existsb start_llgr fold_right upd_h h_sess h_gen h_admin_down].
+    split.
+    + constructor; cbn [h_rib h_gen h_sess]; [intros r Hin; apply (Hrib1 r Hin) | intros s0 Hs0; discriminate].
+    + unfold pinv. cbn [h_gr h_rtimer h_ltimers h_rib h_sess].
+      split; [reflexivity|]. split; [reflexivity|]. split; [reflexivity|]. intros r Hin.
+      destruct (Hrib1 r Hin) as [_ [Hk Hst]]. split; [|exact Hst]. rewrite mem_stale_fold. exact Hk.
+  - destruct llgr2 as [lp|].
+    + rewrite (gr_step_drop_llgr g lp Hphase). cbn [existsb start_llgr fold_right upd_h h_sess h_gen h_admin_down].
+      split.
+      * constructor; cbn [h_rib h_gen h_sess]; [|intros s0 Hs0; discriminate].
+        intros r Hin. apply in_mark_llgr in Hin. destruct Hin as [q [Hq [_ [Hs _]]]]. rewrite Hs. apply (Hrib1 q Hq).
+      * unfold pinv. cbn [h_gr h_rtimer h_ltimers h_rib h_sess].
+        split; [reflexivity|]. split; [reflexivity|]. split; [intros f; reflexivity|]. intros r Hin.
+        apply in_mark_llgr in Hin. destruct Hin as [q [Hq [Hf [_ [_ Hm]]]]].
+        destruct (Hrib1 q Hq) as [_ [Hk _]]. subst gr_fams llgr_fams. cbn [mem existsb orb] in Hk.
+        change (mem (r_fam q) []) with false in Hk. cbn [orb] in Hk.
+        split; [rewrite mem_dedup, Hf; exact Hk | apply Hm; exact Hk].
+    + (* not eligible: nothing is kept *)
+      assert (rib1 = []) as ->.
+      { destruct rib1 as [|r rest] eqn:E; [reflexivity|]. exfalso.
+        destruct (Hrib1 r (or_introl eq_refl)) as [_ [Hk _]]. subst gr_fams llgr_fams. discriminate. }
+      cbn [upd_h h_sess h_gen h_admin_down h_gr h_rtimer h_ltimers h_rib].
+      split.
+      * constructor; cbn [h_rib h_gen h_sess]; [intros r [] | intros s0 Hs0; discriminate].
+      * unfold pinv. cbn [h_gr h_rtimer h_ltimers h_rib h_sess].
+        destruct Hphase as [->|[p [fl ->]]]; cbn [is_peer_restarting];
+          (split; [reflexivity|]); (split; [reflexivity|]); intros r [].
+Qed.
+
+Lemma inv_down : forall h r, inv h -> inv (h_step h (HDown r)).
+Proof.
+  intros h r Hinv. cbn [h_step]. destruct (h_sess h) as [s|] eqn:Es; [|exact Hinv].
+  destruct h as [g rt lt rib S gen ad]. cbn [h_gr h_rtimer h_ltimers h_rib h_sess h_gen h_admin_down] in *. subst S.
+  cbv zeta. apply down_core. exact Hinv.
+Qed.
+
+Lemma inv_step : forall h e, inv h -> wf_event e = true -> inv (h_step h e).
+Proof.
+  intros h e Hinv Hwf. destruct e as [fams gr ll|f id nl lc|f|r| | |f| |b].
+  - apply inv_up; assumption.
+  - apply inv_announce; assumption.
+  - apply inv_eor; assumption.
+  - apply inv_down; assumption.
+  - apply inv_fail; assumption.
+  - apply inv_rtimer; assumption.
+  - apply inv_ltimer; assumption.
+  - apply inv_force; assumption.
+  - apply inv_admin; assumption.
+Qed.
+
+Lemma inv_run : forall evs h, inv h -> Known_C10_7 evs = false -> inv (h_run h evs).
+Proof.
+  induction evs as [|e r IH]; intros h Hinv Hk; [exact Hinv|].
+  unfold Known_C10_7 in Hk. cbn [existsb] in Hk. apply orb_false_iff in Hk. destruct Hk as [He Hr].
+  apply negb_false_iff in He. unfold h_run. cbn [fold_left]. apply IH; [apply inv_step; assumption | exact Hr].
+Qed.
+
+(* ------------------------------------------------------------ the invariant, for all histories *)
+
+Lemma stale_ok_along_inv : forall evs h, inv h -> Known_C10_7 evs = false -> stale_ok_along h evs = true.
+Proof.
+  induction evs as [|e r IH]; intros h Hinv Hk; [reflexivity|].
+  unfold Known_C10_7 in Hk. cbn [existsb] in Hk. apply orb_false_iff in Hk. destruct Hk as [He Hr].
+  apply negb_false_iff in He. cbn [stale_ok_along].
+  pose proof (inv_step h e Hinv He) as Hinv'. rewrite (inv_stale_ok _ Hinv'). cbn [andb]. apply IH; assumption.
+Qed.
+
+(* Stale routes exist only while a restart timer or an LLGR timer is armed or an
+   End-of-RIB is awaited on the re-established session: after every step of every
+   history outside the remaining known class C10-7. *)
+Theorem C10_stale_implies_timer_or_eor_outside_known :
+  forall (evs : list hevent),
+    Known_C10_7 evs = false ->
+    stale_ok_along h0 evs = true /\ stale_ok (h_run h0 evs) = true.
+Proof.
+  intros evs Hk. split.
+  - apply stale_ok_along_inv; [exact inv_h0 | exact Hk].
+  - apply inv_stale_ok. apply inv_run; [exact inv_h0 | exact Hk].
+Qed.
+
+(* finding C10-7: GR negotiated for a family that is not a family of the session *)
+Definition w7 : list hevent :=
+  [HUp [V4; V6] (Some ([V4; V6], 120, true)) None; HAnnounce V6 0 false false; HDown RsTcp;
+   HUp [V4] (Some ([V4; V6], 120, true)) None; HDown RsRemoteHard].
+
+Theorem C10_stale_implies_timer_or_eor_refuted :
+  Known_C10_7 w7 = true /\ stale_ok (h_run h0 w7) = false
+  /\ h_rtimer (h_run h0 w7) = false /\ h_ltimers (h_run h0 w7) = [] /\ h_sess (h_run h0 w7) = None.
+Proof. vm_compute. repeat split; reflexivity. Qed.
+
+(* ------------------------------------------------------------ one-step facts of the glue *)
+
+(* (a) a connection attempt that ends before Established leaves every pending
+       timer, the helper phase and the routes as they were *)
+Theorem C10_failed_reconnect_keeps_timer :
+  forall (h : hstate),
+    let h' := h_step h HFailedConnect in
+    h_ltimers h' = h_ltimers h /\ h_rib h' = h_rib h /\ h_gr h' = h_gr h /\ h_sess h' = h_sess h
+    /\ (is_peer_restarting (h_gr h) = true -> h_rtimer h' = h_rtimer h).
+Proof.
+  intros h. cbn. repeat split. intros ->. reflexivity.
+Qed.
+
+(* (b) NO_LLGR routes are gone when the LLGR period of their family starts *)
+Theorem C10_no_llgr_dropped_at_llgr_start :
+  forall (h : hstate) (l : list (fam * N)),
+    h_rtimer h = true -> start_llgr (snd (gr_step (h_gr h) GTimerExpired)) = Some l ->
+    let h' := h_step h HRestartTimer in
+    (forall f, In f (map fst l) -> mem f (h_ltimers h') = true)
+    /\ (forall r, In r (h_rib h') -> mem (r_fam r) (map fst l) = true -> r_no_llgr r = false /\ r_llgr r = true).
+Proof.
+  intros h l Hrt Hst h'. subst h'. cbn [h_step]. rewrite Hrt. unfold restart_handler.
+  destruct (gr_step (h_gr h) GTimerExpired) as [g' outs]. cbn [snd] in Hst. rewrite Hst. cbn [h_ltimers h_rib upd_h].
+  split.
+  - intros f Hf. unfold add_timers. rewrite mem_dedup. apply mem_In. apply in_or_app. right. exact Hf.
+  - intros r Hin Hf. apply in_mark_llgr in Hin. destruct Hin as [q [_ [Hfq [_ [_ Hm]]]]].
+    rewrite Hfq in Hf. destruct (Hm Hf) as [A B]. split; assumption.
+Qed.
+
+Theorem C10_no_llgr_dropped_at_llgr_only_drop :
+  forall (h : hstate) gr ll (l : list (fam * N)),
+    start_llgr (snd (gr_step (h_gr h) (GSessionDropped gr ll))) = Some l ->
+    (gr <> None \/ ll <> None) ->
+    let h' := apply_disconnect h gr ll in
+    forall r, In r (h_rib h') -> mem (r_fam r) (map fst l) = true -> r_no_llgr r = false /\ r_llgr r = true.
+Proof.
+  intros h gr ll l Hst Hne h' r Hin Hf. subst h'. unfold apply_disconnect in Hin.
+  destruct (gr_step (h_gr h) (GSessionDropped gr ll)) as [g' outs]. cbn [snd] in Hst.
+  destruct gr as [g|]; [|destruct ll as [x|]; [|destruct Hne; congruence]];
+    rewrite Hst in Hin; cbn [h_rib upd_h] in Hin;
+    (apply in_mark_llgr in Hin; destruct Hin as [q [_ [Hfq [_ [_ Hm]]]]]; rewrite Hfq in Hf;
+     destruct (Hm Hf) as [A B]; split; assumption).
+Qed.
+
+(* (c) the stale purges (End-of-RIB, re-establishment) never remove an unmarked route;
+       in particular not a route re-announced on the new session, whatever communities it carries *)
+Theorem C10_fresh_routes_survive_purge :
+  forall (h : hstate) (e : hevent) (r : route),
+    (exists f, e = HEor f) \/ (exists fams gr ll, e = HUp fams gr ll) ->
+    In r (h_rib h) -> r_stale r = false -> r_llgr r = false ->
+    In r (h_rib (h_step h e)).
+Proof.
+  intros h e r He Hin Hs Hl. destruct He as [[f ->]|[fams [gr [ll ->]]]]; cbn [h_step].
+  - destruct (h_sess h) as [s|]; [|assumption]. destruct (s_gr s); [|assumption].
+    destruct (gr_step (h_gr h) (GEorReceived f)) as [g' outs]. cbn [h_rib upd_h].
+    apply in_drop_llgr_stale. split; [apply in_drop_stale; split; [assumption|]|]; rewrite ?Hs, ?Hl; apply andb_false_r.
+  - destruct (h_sess h) as [s|]; [assumption|].
+    destruct (gr_step (h_gr h) _) as [g' outs]. cbn [h_rib].
+    apply in_drop_llgr_stale. split; [apply in_drop_stale; split; [assumption|]|]; rewrite ?Hs, ?Hl; apply andb_false_r.
+Qed.
+
+(* ... and on every history outside C10-7 the routes of the live session are unmarked, so
+   they survive: stated on reachable states *)
+Theorem C10_live_session_routes_survive_purge :
+  forall (evs : list hevent) (e : hevent) (s : session) (r : route),
+    Known_C10_7 evs = false ->
+    let h := h_run h0 evs in
+    h_sess h = Some s -> In r (h_rib h) -> r_sess r = s_gen s ->
+    (exists f, e = HEor f) ->
+    In r (h_rib (h_step h e)).
+Proof.
+  intros evs e s r Hk h Hs Hin Hg He.
+  pose proof (inv_run evs h0 inv_h0 Hk) as [[_ Hsess] _]. fold h in Hsess.
+  destruct (Hsess s Hs) as [_ [_ [_ [_ [_ Hcur]]]]]. destruct (Hcur r Hin Hg) as [A [B _]].
+  apply C10_fresh_routes_survive_purge; [left; exact He | assumption..].
+Qed.
+
+(* (d) removal no later than the expiry / the End-of-RIB *)
+Theorem C10_purged_by_expiry_or_eor :
+  forall (h : hstate),
+    (forall f s g pending, h_sess h = Some s -> s_gr s = Some g -> h_gr h = GPeerReconnected pending false ->
+        forall r, In r (h_rib (h_step h (HEor f))) -> r_fam r = f -> r_stale r = false)
+    /\ (forall f s g pending, h_sess h = Some s -> s_gr s = Some g -> h_gr h = GPeerReconnected pending true ->
+        forall r, In r (h_rib (h_step h (HEor f))) -> r_fam r = f -> r_llgr r = false)
+    /\ (forall stale, h_rtimer h = true -> h_gr h = GPeerRestarting stale None ->
+        forall r, In r (h_rib (h_step h HRestartTimer)) -> mem (r_fam r) stale = false)
+    /\ (forall f remaining, mem f (h_ltimers h) = true -> h_gr h = GLlgrStaling remaining ->
+        forall r, In r (h_rib (h_step h (HLlgrTimer f))) -> r_fam r = f -> r_llgr r = false).
+Proof.
+  intros h. split; [|split; [|split]].
+  - intros f s g pending Hs Hg Hgr r Hin Hf. cbn [h_step] in Hin. rewrite Hs, Hg, Hgr in Hin.
+    cbn in Hin. apply filter_In in Hin. destruct Hin as [Hin _]. apply filter_In in Hin. destruct Hin as [_ Hn].
+    unfold in_fams, mem in Hn. cbn [existsb] in Hn. rewrite Hf, N.eqb_refl in Hn. cbn in Hn.
+    destruct (r_stale r); [discriminate | reflexivity].
+  - intros f s g pending Hs Hg Hgr r Hin Hf. cbn [h_step] in Hin. rewrite Hs, Hg, Hgr in Hin.
+    cbn in Hin. apply filter_In in Hin. destruct Hin as [_ Hn].
+    unfold in_fams, mem in Hn. cbn [existsb] in Hn. rewrite Hf, N.eqb_refl in Hn. cbn in Hn.
+    destruct (r_llgr r); [discriminate | reflexivity].
+  - intros stale Hrt Hgr r Hin. cbn [h_step] in Hin. rewrite Hrt in Hin. unfold restart_handler in Hin.
+    rewrite Hgr in Hin. cbn in Hin.
+    rewrite app_nil_r in Hin. apply filter_In in Hin. destruct Hin as [_ Hn]. unfold in_fams in Hn.
+    destruct (mem (r_fam r) stale); [discriminate | reflexivity].
+  - intros f remaining Hlt Hgr r Hin Hf. cbn [h_step] in Hin. rewrite Hlt in Hin. unfold llgr_handler, upd_h in Hin.
+    cbn [h_gr h_rib h_rtimer h_ltimers] in Hin. rewrite Hgr in Hin. cbn in Hin.
+    apply filter_In in Hin. destruct Hin as [_ Hn].
+    unfold in_fams, mem in Hn. cbn [existsb] in Hn. rewrite Hf, N.eqb_refl in Hn. cbn in Hn.
+    destruct (r_llgr r); [discriminate | reflexivity].
+Qed.
+
+(* (e) at a session drop only routes of families that were negotiated for GR or
+       LLGR can remain: every other family is removed at once, whatever the reason *)
+Lemma down_kept : forall h0' (sf : list fam) rib (gr2 : option (list fam * N)) (ll2 : option (list (fam * N))) r,
+    let grf := match gr2 with Some (l, _) => l | None => [] end in
+    let llf := match ll2 with Some l => map fst l | None => [] end in
+    In r (h_rib (apply_disconnect
+                   {| h_gr := h_gr h0'; h_rtimer := h_rtimer h0'; h_ltimers := h_ltimers h0';
+                      h_rib := rib_restale (rib_drop rib (filter (fun f => negb (mem f grf) && negb (mem f llf)) sf)) (grf ++ llf);
+                      h_sess := None; h_gen := h_gen h0'; h_admin_down := h_admin_down h0' |} gr2 ll2)) ->
+    mem (r_fam r) sf = true ->
+    mem (r_fam r) grf = true \/ mem (r_fam r) llf = true.
+Proof.
+  intros h0' sf rib gr2 ll2 r grf llf Hin Hf.
+  assert (exists q, In q (rib_restale (rib_drop rib (filter (fun f => negb (mem f grf) && negb (mem f llf)) sf)) (grf ++ llf))
+                    /\ r_fam q = r_fam r) as [q [Hq Hfq]].
+  { unfold apply_disconnect in Hin. cbn [h_gr h_rib h_ltimers h_rtimer] in Hin.
+    destruct gr2 as [g2|]; [|destruct ll2 as [l2|]].
+    - destruct (gr_step (h_gr h0') _) as [g' outs]. destruct (start_llgr outs); cbn [h_rib upd_h] in Hin.
+      + apply in_mark_llgr in Hin. destruct Hin as [q [Hq [Hf' _]]]. exists q. split; [exact Hq | symmetry; exact Hf'].
+      + exists r. split; [exact Hin | reflexivity].
+    - destruct (gr_step (h_gr h0') _) as [g' outs]. destruct (start_llgr outs); cbn [h_rib upd_h] in Hin.
+      + apply in_mark_llgr in Hin. destruct Hin as [q [Hq [Hf' _]]]. exists q. split; [exact Hq | symmetry; exact Hf'].
+      + exists r. split; [exact Hin | reflexivity].
+    - cbn [h_rib upd_h] in Hin. exists r. split; [exact Hin | reflexivity]. }
+  apply in_restale in Hq. destruct Hq as [q' [Hq' [Hf' _]]]. apply in_drop in Hq'. destruct Hq' as [_ Hnd].
+  rewrite mem_filter in Hnd. rewrite <- Hf', Hfq, Hf in Hnd. cbn [andb] in Hnd.
+  destruct (mem (r_fam r) grf) eqn:E1; [left; reflexivity|].
+  destruct (mem (r_fam r) llf) eqn:E2; [right; reflexivity|]. discriminate.
+Qed.
+
+Theorem C10_non_negotiated_families_dropped_at_once :
+  forall (h : hstate) (s : session) (rs : reason) (r : route),
+    h_sess h = Some s ->
+    In r (h_rib (h_step h (HDown rs))) ->
+    mem (r_fam r) (s_fams s) = true ->
+    mem (r_fam r) (fams_of_gr (s_gr s)) = true \/ mem (r_fam r) (fams_of_llgr (s_llgr s)) = true.
+Proof.
+  intros h s rs r Hs Hin Hf. cbn [h_step] in Hin. rewrite Hs in Hin. cbv zeta in Hin.
+  apply down_kept in Hin; [|exact Hf].
+  destruct (h_admin_down h); [destruct Hin; discriminate|].
+  destruct Hin as [Hin|Hin].
+  - left. destruct (s_gr s) as [[[l rt] nb]|]; [|discriminate]. destruct (gr_applies rs nb); [exact Hin | discriminate].
+  - right. destruct (s_llgr s) as [lp|].
+    + destruct (match s_gr s with Some (l, rt, nbit) => if gr_applies rs nbit then Some (l, rt) else None | None => None end);
+        [exact Hin | destruct rs; try discriminate; exact Hin].
+    + destruct (match s_gr s with Some (l, rt, nbit) => if gr_applies rs nbit then Some (l, rt) else None | None => None end);
+        [discriminate | destruct rs; discriminate].
+Qed.
+
+(* (f) a hard reset, an admin shutdown, a non-Cease error (and a NOTIFICATION or hold-timer
+       expiry without the N bit) never enters helper mode and retains nothing: on every
+       reachable state outside C10-7 *)
+Theorem C10_non_gr_reasons_retain_nothing_outside_known :
+  forall (evs : list hevent) (s : session) (rs : reason),
+    Known_C10_7 evs = false ->
+    let h := h_run h0 evs in
+    h_sess h = Some s -> not_eligible h s rs = true ->
+    let h' := h_step h (HDown rs) in
+    h_rib h' = [] /\ h_rtimer h' = false /\ h_ltimers h' = [] /\ h_sess h' = None /\ h_gr h' = h_gr h.
+Proof.
+  intros evs s rs Hk h Hs Hne h'.
+  pose proof (inv_run evs h0 inv_h0 Hk) as Hinv. fold h in Hinv.
+  pose proof (inv_down h rs Hinv) as Hinv'. fold h' in Hinv'.
+  (* nothing is negotiated as far as the disconnect handling is concerned *)
+  assert (h_gr h' = h_gr h /\ h_sess h' = None) as [Hg' Hs'].
+  { subst h'. cbn [h_step]. rewrite Hs. cbv zeta. unfold not_eligible in Hne.
+    destruct (h_admin_down h) eqn:Ea; [split; reflexivity|]. cbn [orb] in Hne.
+    destruct (s_gr s) as [[[l rt] nb]|].
+    - apply negb_true_iff in Hne. rewrite Hne. destruct rs; cbn in Hne; try discriminate; split; reflexivity.
+    - destruct rs; try discriminate; split; reflexivity. }
+  destruct Hinv as [Hgi Hp]. destruct (gi_sess h Hgi s Hs) as [_ [Hrt [Hlt _]]].
+  destruct Hinv' as [_ Hp']. unfold pinv in Hp, Hp'. rewrite Hg' in Hp'.
+  destruct (h_gr h) as [|stale llgr|rem|p fl] eqn:Eg.
+  - destruct Hp' as [A [B C]]. repeat split; try assumption.
+    destruct (h_rib h') as [|q rest]; [reflexivity|]. specialize (C q (or_introl eq_refl)).
+    rewrite (retained_no_session h' q Hs') in C. discriminate.
+  - destruct Hp as [Hn _]. congruence.
+  - destruct Hp as [Hn _]. congruence.
+  - destruct Hp' as [A [B C]]. repeat split; try assumption.
+    destruct (h_rib h') as [|q rest]; [reflexivity|].
+    destruct (C q (or_introl eq_refl) (retained_no_session h' q Hs')) as [_ [[s0 [Hs0 _]] _]]. congruence.
+Qed.
+
+Theorem C10_non_gr_reasons_retain_nothing_refuted :
+  exists evs s rs,
+    Known_C10_7 evs = true /\
+    let h := h_run h0 evs in
+    h_sess h = Some s /\ not_eligible h s rs = true /\ h_rib (h_step h (HDown rs)) <> [].
+Proof.
+  exists [HUp [V4; V6] (Some ([V4; V6], 120, true)) None; HAnnounce V6 0 false false; HDown RsTcp;
+          HUp [V4] (Some ([V4; V6], 120, true)) None],
+         {| s_gen := 2; s_fams := [V4]; s_gr := Some ([V4; V6], 120, true); s_llgr := None |}, RsRemoteHard.
+  vm_compute. repeat split; try reflexivity. discriminate.
+Qed.
+
+(* ------------------------------------------------------------ non-vacuity *)
+Definition ex_gr_llgr : list hevent :=
+  [HUp [V4; V6] (Some ([V4; V6], 120, false)) (Some [(V4, 3600); (V6, 3600)]);
+   HAnnounce V4 0 false false; HAnnounce V4 1 true false; HAnnounce V6 0 false false; HDown RsTcp].
+
+Example ex_restarting_with_timer :
+  let h := h_run h0 ex_gr_llgr in
+  Known_C10_7 ex_gr_llgr = false
+  /\ is_peer_restarting (h_gr h) = true /\ h_rtimer h = true /\ length (h_rib h) = 3%nat
+  /\ h_rtimer (h_step h HFailedConnect) = true
+  /\ start_llgr (snd (gr_step (h_gr h) GTimerExpired)) = Some [(V4, 3600); (V6, 3600)]
+  /\ length (h_rib (h_step h HRestartTimer)) = 2%nat
+  /\ h_ltimers (h_step h HRestartTimer) = [V4; V6].
+Proof. vm_compute. repeat split; reflexivity. Qed.
+
+Example ex_eor_purges_only_stale :
+  let evs := ex_gr_llgr ++ [HUp [V4; V6] (Some ([V4; V6], 120, false)) None; HAnnounce V4 2 false true] in
+  let h := h_run h0 evs in
+  Known_C10_7 evs = false
+  /\ h_gr h = GPeerReconnected [V4; V6] false /\ length (h_rib h) = 4%nat
+  /\ map r_id (h_rib (h_step h (HEor V4))) = [0; 2] /\ map r_fam (h_rib (h_step h (HEor V4))) = [V6; V4]
+  /\ stale_ok h = true /\ stale_ok (h_step h (HEor V4)) = true.
+Proof. vm_compute. repeat split; reflexivity. Qed.
+
+Example ex_hard_reset_retains_nothing :
+  let evs := [HUp [V4; V6] (Some ([V4], 120, true)) (Some [(V4, 3600)]); HAnnounce V4 0 false false; HAnnounce V6 1 false false] in
+  let h := h_run h0 evs in
+  Known_C10_7 evs = false /\ length (h_rib h) = 2%nat
+  /\ (exists s, h_sess h = Some s /\ not_eligible h s RsRemoteHard = true /\ not_eligible h s RsTcp = false)
+  /\ h_rib (h_step h (HDown RsRemoteHard)) = [] /\ length (h_rib (h_step h (HDown RsTcp))) = 1%nat.
+Proof. vm_compute. repeat split; try reflexivity. eexists. repeat split; reflexivity. Qed.
+
+Example ex_gr_family_without_llgr_expires :
+  let evs := [HUp [V4; V6] (Some ([V4; V6], 120, false)) (Some [(V4, 3600)]); HAnnounce V6 0 false false;
+              HAnnounce V4 0 false false; HDown RsTcp; HRestartTimer] in
+  let h := h_run h0 evs in
+  Known_C10_7 evs = false /\ h_gr h = GLlgrStaling [V4] /\ map r_fam (h_rib h) = [V4] /\ h_ltimers h = [V4].
+Proof. vm_compute. repeat split; reflexivity. Qed.
+
+Example ex_helper_entry :
+  is_peer_restarting (fst (gr_step GIdle (GSessionDropped (Some ([V4], 120)) None))) = true
+  /\ is_peer_restarting (fst (gr_step GIdle (GSessionDropped None (Some [(V4, 3600)])))) = true
+  /\ is_peer_restarting (fst (gr_step GIdle (GSessionDropped None None))) = false.
+Proof. vm_compute. repeat split; reflexivity. Qed.
